@@ -60,13 +60,14 @@ def cases():
         lambda o, i: P("Cast", this=IS(i), to=P("DataType", this=ENUM("TIMESTAMP"))), "TO_TIMESTAMP returns TIMESTAMP_NTZ")
     add("TO_TIMESTAMP_NTZ(x) -> STRPTIME(x, '%Y-%m-%d %H:%M:%S')", "to_timestamp_ntz", mk(lambda o: anon("TO_TIMESTAMP_NTZ", op(o, "x"))),
         lambda o, i: P("StrToTime", this=IS(o["x"]), format=LITERAL("%Y-%m-%d %H:%M:%S")), "the argument is the string to parse")
-    for unit in ("DAY", "WEEK", "MONTH", "YEAR"):
+    for unit in ("DAY", "WEEK", "MONTH", "QUARTER", "YEAR"):
         add(f"DATEADD({unit}, n, <date>) is cast back to DATE", "dateadd_date_cast",
             mk(lambda o, unit=unit: node("DateAdd", "stmt", this=node("Cast", this=op(o, "x"), to=dtype("DATE")), expression=op(o, "n"), unit=node("Var", this=Const(unit)))),
             lambda o, i: P("Cast", this=IS(i), to=P("DataType", this=ENUM("DATE"))), "adding whole days/weeks/months/years to a DATE yields a DATE in Snowflake")
-    add("DATEADD(HOUR, n, <date>) stays a timestamp", "dateadd_date_cast",
-        mk(lambda o: node("DateAdd", "stmt", this=node("Cast", this=op(o, "x"), to=dtype("DATE")), expression=op(o, "n"), unit=node("Var", this=Const("HOUR")))),
-        UNCHANGED, "sub-day units turn a DATE into a TIMESTAMP")
+    for unit in ("HOUR", "MINUTE", "SECOND", "MILLISECOND", "MICROSECOND", "NANOSECOND"):
+        add(f"DATEADD({unit}, n, <date>) stays a timestamp", "dateadd_date_cast",
+            mk(lambda o, unit=unit: node("DateAdd", "stmt", this=node("Cast", this=op(o, "x"), to=dtype("DATE")), expression=op(o, "n"), unit=node("Var", this=Const(unit)))),
+            UNCHANGED, "sub-day units turn a DATE into a TIMESTAMP (casting back to DATE drops the added time)")
     add("DATEADD(DAY, n, <timestamp>) is not cast to DATE", "dateadd_date_cast",
         mk(lambda o: node("DateAdd", "stmt", this=node("Cast", this=op(o, "x"), to=dtype("TIMESTAMP")), expression=op(o, "n"), unit=node("Var", this=Const("DAY")))),
         UNCHANGED, "only DATE operands yield DATE")
